@@ -1,7 +1,6 @@
 SPECIFICATION Spec
 CONSTANTS
-  Narrow8 = FALSE
+  Narrow8 = TRUE
   AnyEchoSrc = FALSE
-INVARIANTS Report Drift
-POSTCONDITION TraceAccepted
+INVARIANTS C01_Design
 CHECK_DEADLOCK FALSE
